@@ -2096,7 +2096,10 @@ static psRes_t validateKeyForExtensions(ssl_t *ssl, const sslCipherSpec_t *spec,
 #    ifdef USE_CERT_PARSE
                     /* Do negotiated curves work with our signatures. If not
                        parsing cert, opportunistically accept, and fail later. */
-                    if (psTestUserEcID(crt->publicKey.key.ecc.curve->curveId,
+                    /* Only the EC keys of the chain have a curve: an
+                       ECDH_RSA identity is followed by its RSA issuer */
+                    if (crt->pubKeyAlgorithm == OID_ECDSA_KEY_ALG &&
+                            psTestUserEcID(crt->publicKey.key.ecc.curve->curveId,
                             ssl->ecInfo.ecFlags) < 0)
                     {
                         return PS_UNSUPPORTED_FAIL;
